@@ -29,10 +29,16 @@ impl WaitSlot {
         self.thread
             .set(thread::current())
             .expect("scheduler wait thread registered more than once");
+            #[cfg(feature = "verif")]
+            crate::verif::slot_register(self as *const Self as usize);
     }
 
     pub(super) fn notify(&self) {
+        #[cfg(feature = "verif")]
+        crate::verif::point(crate::verif::pt::NOTIFY, self as *const Self as usize);
         if let Some(thread) = self.thread.get() {
+            #[cfg(feature = "verif")]
+            crate::verif::unpark(self as *const Self as usize);
             thread.unpark();
         }
     }
@@ -42,13 +48,21 @@ impl WaitSlot {
     /// `Thread::unpark` publishes a token even when it races between the second predicate check
     /// and `park_timeout`, closing the usual check/park lost-wakeup window.
     pub(super) fn wait_while(&self, timeout: Duration, mut blocked: impl FnMut() -> bool) {
+        #[cfg(feature = "verif")]
+        crate::verif::point(crate::verif::pt::WAIT_CHECK1, self as *const Self as usize);
         if !blocked() {
             return;
         }
 
         // Most scheduler stalls close within one worker timeslice.
+        #[cfg(feature = "verif")]
+        crate::verif::point(crate::verif::pt::WAIT_YIELD, self as *const Self as usize);
         thread::yield_now();
         if blocked() {
+            #[cfg(feature = "verif")]
+            crate::verif::point(crate::verif::pt::WAIT_PARK, self as *const Self as usize);
+            #[cfg(feature = "verif")]
+            if crate::verif::park(self as *const Self as usize) { return; }
             thread::park_timeout(timeout);
         }
     }
